@@ -415,3 +415,31 @@ Definition loops_ended c s : bool :=
 Definition verdict c s : Z :=
   if loops_ended c s then 0%Z
   else if any_enabled c s then 1%Z else 2%Z.
+
+(* ------------------------------------------------------------------ *)
+(* Which kind each public API hands to uv__work_submit (threadpool.c l.380-384, unix/fs.c POST
+   macro and uv_fs_copyfile..., unix/getaddrinfo.c l.206, unix/getnameinfo.c l.110,
+   random.c l.116).  The arguments that could conceivably matter are kept (the flags of
+   uv_getnameinfo, AI_NUMERICHOST for uv_getaddrinfo, the fs operation) - and do not matter:
+   a name lookup is slow I/O whatever its flags. *)
+Inductive api :=
+| AQueueWork
+| ARandom
+| AFs (fsop : nat)
+| AGetaddrinfo (numeric_host : bool)
+| AGetnameinfo (flags : Z).
+
+Definition api_kind (a : api) : kind :=
+  match a with
+  | AQueueWork => KCpu
+  | ARandom => KCpu
+  | AFs _ => KFast
+  | AGetaddrinfo _ => KSlow
+  | AGetnameinfo _ => KSlow
+  end.
+
+Definition is_lookup (a : api) : bool :=
+  match a with AGetaddrinfo _ | AGetnameinfo _ => true | _ => false end.
+
+(* a script written with API calls *)
+Definition api_submit (a : api) : op := OSubmit (api_kind a).
